@@ -250,6 +250,9 @@ pub fn check(args: &Args, prop: Prop) -> i32 {
         } else if let Outcome::Discard(r) = &o.result.outcome {
             let key: String = r.chars().take(90).collect();
             *unexec_reasons.entry(key).or_insert(0) += 1;
+            if std::env::var("GE_SHOW_UNEXEC").is_ok() {
+                eprintln!("unexecutable run={} {}", i, r.chars().take(600).collect::<String>());
+            }
         }
         if let Outcome::Violated(v) = &o.result.outcome {
             violations.push((i as u64, v.clone()));
